@@ -1,28 +1,43 @@
 #!/bin/sh
-# tools/coverage.sh <ID> [tier] — coverage survey: runs the check with statement coverage of the whole repository and
-# lists the blocks of the property's anchored files that the enumeration never reached (candidates for the alphabet).
-# Output: /var/tmp/cov/<ID>.uncovered.txt. Not a check: nothing here decides a property.
-ID="$1"; TIER="${2:-quick}"
-D=/var/tmp/cov; mkdir -p $D; rm -f $D/$ID.*.cov; rm -rf $D/work-$ID
+# tools/coverage.sh <ID> [tier] [budget_s] — coverage survey (not a check): materialises the check's overlay (rewritten
+# sources, harness, helper packages) in a scratch copy of /repo, builds the harness there with statement coverage
+# (go's cover tool does not read overlays) and runs it as one shard. Lists the blocks of the property's anchored
+# files that the enumeration never reached: candidates for the alphabet. Output: /var/tmp/cov/<ID>.uncovered.txt
+set -u
+ID="$1"; TIER="${2:-quick}"; BUD="${3:-240}"
+export GOFLAGS=-mod=mod GOPROXY=off GOSUMDB=off GOTOOLCHAIN=local GOWORK=off
+D=/var/tmp/cov; mkdir -p $D; rm -rf $D/work-$ID $D/tree-$ID $D/$ID.cov
 cd /verif
-VERIF_COVER=$D VERIF_WORK=$D/work-$ID ./run $ID $TIER --keep > $D/$ID.log 2>&1
-tail -1 $D/$ID.log | cut -c1-160
+VERIF_WORK=$D/work-$ID VERIF_BUDGET_S=5 ./run $ID $TIER --keep > $D/$ID.log 2>&1
+OV=$(ls $D/work-$ID/verif-*/overlay.json | head -1)
+rsync -a --exclude .git /repo/ $D/tree-$ID/
+python3 - "$OV" "$D/tree-$ID" <<'PY'
+import json,sys,os,shutil
+ov=json.load(open(sys.argv[1]))['Replace']; tree=sys.argv[2]
+for dst,src in ov.items():
+    assert dst.startswith('/repo/')
+    t=os.path.join(tree,dst[len('/repo/'):])
+    if src=='':
+        if os.path.exists(t): os.remove(t)
+        continue
+    os.makedirs(os.path.dirname(t),exist_ok=True); shutil.copy(src,t)
+PY
+PKG=$(python3 -c "import json;print(json.load(open('/verif/checks.d/$ID.json'))['pkg'])")
+RUN=$(python3 -c "import json;print(json.load(open('/verif/checks.d/$ID.json'))['run'])")
+COVPKG=github.com/bio-routing/bio-rd/protocols/...,github.com/bio-routing/bio-rd/routingtable/...,github.com/bio-routing/bio-rd/route/...,github.com/bio-routing/bio-rd/net/...,github.com/bio-routing/bio-rd/util/...,github.com/bio-routing/bio-rd/cmd/...
+(cd $D/tree-$ID && go test -c -vet=off -tags verif -cover -coverpkg=$COVPKG -o $D/tree-$ID/harness.test ./$PKG) >> $D/$ID.log 2>&1 || { echo "build failed, see $D/$ID.log"; tail -5 $D/$ID.log; exit 2; }
+(cd $D/tree-$ID/$PKG && VERIF_OUT=$D/$ID.rep.json VERIF_TIER=$TIER VERIF_SHARD=0 VERIF_NSHARDS=1 VERIF_BUDGET_S=$BUD VERIF_SEED=1 GOMAXPROCS=1 VERIF_ROOT=/verif VERIF_REPO=$D/tree-$ID timeout $((BUD*2+120)) $D/tree-$ID/harness.test -test.run "^$RUN\$" -test.timeout $((BUD*2+100))s -test.coverprofile $D/$ID.cov) >> $D/$ID.log 2>&1
 python3 - "$ID" <<'PY'
 import sys,glob,json,re,os,collections
 ID=sys.argv[1]; D='/var/tmp/cov'
 prop=[json.loads(l) for l in open('/verif/properties.jsonl') if json.loads(l)['id']==ID][0]
 anch=set(prop['anchors']['files'])
-ov={}
-for f in glob.glob(f'{D}/work-{ID}/verif-*/overlay.json'):
-    ov.update(json.load(open(f))['Replace'])
 cov=collections.defaultdict(int); stm={}
-for f in glob.glob(f'{D}/{ID}.*.cov'):
-    for l in open(f):
-        if l.startswith('mode:'): continue
-        m=re.match(r'(.*):(\d+)\.(\d+),(\d+)\.(\d+) (\d+) (\d+)',l)
-        if not m: continue
-        k=(m.group(1),int(m.group(2)),int(m.group(3)),int(m.group(4)),int(m.group(5)))
-        stm[k]=int(m.group(6)); cov[k]+=int(m.group(7))
+for l in open(f'{D}/{ID}.cov'):
+    m=re.match(r'(.*):(\d+)\.(\d+),(\d+)\.(\d+) (\d+) (\d+)',l)
+    if not m: continue
+    k=(m.group(1),int(m.group(2)),int(m.group(3)),int(m.group(4)),int(m.group(5)))
+    stm[k]=int(m.group(6)); cov[k]+=int(m.group(7))
 out=open(f'{D}/{ID}.uncovered.txt','w')
 pref='github.com/bio-routing/bio-rd/'
 tot=unc=0
@@ -34,14 +49,13 @@ for k,c in cov.items():
     if c==0:
         unc+=stm[k]; byfile[rel].append(k)
 for rel,ks in sorted(byfile.items()):
-    src='/repo/'+rel
-    src=ov.get(src,src)
-    try: lines=open(src).read().split('\n')
-    except Exception: lines=[]
-    out.write(f'=== {rel} (source shown: {src})\n')
+    src=f'{D}/tree-{ID}/{rel}'
+    lines=open(src).read().split('\n')
+    out.write(f'=== {rel}\n')
     for k in sorted(ks,key=lambda x:x[1]):
         text=' | '.join(x.strip() for x in lines[k[1]-1:min(k[3],k[1]+3)])
-        out.write(f'  {k[1]}-{k[3]}: {text[:200]}\n')
+        out.write(f'  {k[1]}-{k[3]}: {text[:220]}\n')
 out.write(f'\nanchored files: {tot} statements, {unc} never executed\n')
-print(f'{ID}: anchored files {sorted(anch)}: {tot} statements, {unc} never executed -> {D}/{ID}.uncovered.txt')
+print(f'{ID}: {tot} statements in the anchored files, {unc} never executed -> {D}/{ID}.uncovered.txt')
 PY
+rm -rf $D/tree-$ID $D/work-$ID
